@@ -460,11 +460,11 @@ theorem flushTail_ok (k : Kcp) (full : Bool) (now : U32) (h : InvMss k) :
 theorem flush_ok (k : Kcp) (full : Bool) (now : U32) (h : InvMss k) :
     (flush k full now).panic = false
       ∧ (∀ o ∈ (flush k full now).outs, 0 < o.length ∧ o.length ≤ k.mtu.toNat)
-      ∧ InvMss (flush k full now).k := by
+      ∧ InvMss (flush k full now).k ∧ (flush k full now).k.mtu = k.mtu := by
   obtain ⟨hf, hmtu, hmss, hbuf, hq, hd⟩ := flushTail_ok k full now h
   rw [flush_eq]
   generalize flushTail k full now = x at *
-  refine ⟨hf.panic, ?_, ?_⟩
+  refine ⟨hf.panic, ?_, ?_, ?_⟩
   · intro o ho
     simp only [] at ho
     split at ho
@@ -481,5 +481,7 @@ theorem flush_ok (k : Kcp) (full : Bool) (now : U32) (h : InvMss k) :
     refine h.of_cfg (hc.1.trans hmtu) (hc.2.1.trans hmss) (hc.2.2.1.trans hbuf) ?_ ?_
     · rw [hc.2.2.2.1]; exact hq
     · rw [hc.2.2.2.2]; exact hd
+  · exact (flushCc_cfg { x.f.k with snd_buf := x.done } x (flushCwnd (flushHead k now).k)
+      (flushResent (flushMid (flushHead k now) now).k)).1.trans hmtu
 
 end KcpVerif.Lemmas.KcpFlush
